@@ -86,7 +86,8 @@ def run_all(ctx, scens, rscens, nrandom):
     if rc != 0:
         raise vlib.MachineryError("status save driver failed:\n" + out[-3000:])
     rp = ctx.path("real.ndjson")
-    rc, out = vlib.go_test(ctx, "cmd/dastard", CMD, "TestVerifStartup$", env={"VERIF_OUT": rp, "VERIF_SNAPDIR": snap}, timeout=1200)
+    rc, out = vlib.go_test(ctx, "cmd/dastard", CMD, "TestVerifStartup$", timeout=2400,
+                           env={"VERIF_OUT": rp, "VERIF_SNAPDIR": snap, "VERIF_NREAL": 10 if ctx.quick() else 80})
     if rc != 0:
         raise vlib.MachineryError("start-up harness failed:\n" + out[-3000:])
     real = {r["snap"]: r for r in vlib.read_ndjson(rp)}
@@ -102,6 +103,10 @@ def run_all(ctx, scens, rscens, nrandom):
             e["real"] = {"kind": r["kind"], "h": r.get("h", ""), "restored": r.get("restored") or {}}
             e["hasreal"] = True
             nreal += 1
+            if r.get("fullstart"):
+                ctx.notes["complete_startups_in_own_process"] = ctx.notes.get("complete_startups_in_own_process", 0) + 1
+                if r.get("fullpanic"):
+                    ctx.notes.setdefault("complete_startup_panics", []).append(str(r.get("fullpanic"))[:200])
     ctx.notes["separate_process_restarts"] = nreal
     nsave = max([e["scen"] for e in events if e["ev"] == "Start"] or [0])
     if rscens:
